@@ -168,7 +168,7 @@ def op_cases(draw, ops=None, dtypes=None, constraint=None, unsupported_rate=0.0,
     elif op == "sdpa":
         mode = draw(st.sampled_from(["none", "causal", "bool", "float"]))
         S = draw(st.integers(1, 6))
-        Sk = S if mode == "causal" else draw(st.sampled_from([S, S, draw(st.integers(1, 6))]))
+        Sk = S if mode == "causal" else draw(st.sampled_from([S, draw(st.integers(1, 6)), draw(st.integers(1, 6))]))   # cross-attention: key length != query length
         dh = draw(st.integers(1, 8))
         c.update(b=b, S=S, Sk=Sk, d=dh, mode=mode, dropout_p=draw(st.sampled_from([0.0, 0.0, 0.1, 0.3])), mult=draw(mults),
                  mask_bcast=draw(st.booleans()), rng=draw(st.integers(0, 1000)))
@@ -330,7 +330,9 @@ def build(c: dict, seed: int, unsupported: Optional[Tuple[str, Any]] = None, pro
             t = torch.randint(0, V, () if B is None else (B,), generator=g)
             ign = c["ignore"]
             if ign is not None and c["ign_frac"] > 0 and B is not None:
-                t = torch.where(torch.rand((B,), generator=g) < c["ign_frac"], torch.tensor(ign), t)
+                # the second data draw (own value profile) also ignores a different share of the targets
+                frac = c["ign_frac"] if prof is None else {0.3: 0.7, 0.6: 0.2}.get(c["ign_frac"], c["ign_frac"])
+                t = torch.where(torch.rand((B,), generator=g) < frac, torch.tensor(ign), t)
         kw = {}
         if c["reduction"] != "default":
             kw["reduction"] = c["reduction"]
